@@ -1,5 +1,6 @@
 import TLVerif.Jsonp.NumLemmas
 import TLVerif.Jsonp.FloatLemmas
+import TLVerif.Jsonp.FloatFiniteLemmas
 /-!
 # C34 — JSON primitive writers emit valid, exactly-decodable JSON
 
@@ -13,9 +14,12 @@ Model: `TLVerif.Jsonp.Writer` (`JSONWriteString[Bytes]`, integer writers, `jsonW
 `TLVerif.Jsonp.Utf8`, `TLVerif.Jsonp.Base64` (the standard-library routines both sides call).
 `safeSet`, `hex`, `binaryJSONStringStart/End` are regenerated from the source (T1).
 
-What is a theorem here: everything in the statement except the digits of *finite* floats
-(`strconv.AppendFloat(…,'f',-1,…)` / `ParseFloat`, trusted; their bit-exact round trip is checked on the
-implementation by the differential run only).
+What is a theorem here: strings, base64, the four integer types and the float specials in full.  For *finite*
+floats `strconv.AppendFloat(…,'f',-1,…)` / `ParseFloat` are modelled by an exact-arithmetic specification
+(`TLVerif.Jsonp.Float`: correct rounding; the shortest digits, nearest with ties to even, that read back); the
+bit-exact round trip is a theorem under the decidable guard that the 20-digit search succeeds
+(`float_finite_roundtrip_partial`; the guard is evaluated on every sampled pattern by the differential run, it has
+never failed, 9 resp. 17 digits are known to suffice — that fact is not proved here).
 -/
 namespace TLVerif.Props.C34
 open TLVerif.Jsonp
@@ -124,7 +128,52 @@ theorem float_class_fields (ebits mbits bits : Nat) :
     (floatClass ebits mbits bits = .nan ↔ bits / 2 ^ mbits % 2 ^ ebits = 2 ^ ebits - 1 ∧ bits % 2 ^ mbits ≠ 0) :=
   ⟨(floatClass_spec ebits mbits bits).1, (floatClass_spec ebits mbits bits).2.1⟩
 
+/-! ## Finite floats -/
+
+/-- a float32 / float64 bit pattern -/
+def IsPattern (f : FloatFmt) (bits : Nat) : Prop := bits < 2 ^ (1 + (f.mbits + f.ebits))
+
+/-- Full-strength statement for finite floats (kept visible; the totality of the digit search is the only part that
+is not proved): every finite pattern is written as an RFC 8259 number that the reader maps back bit-exactly. -/
+def FloatFiniteRoundtrip (f : FloatFmt) : Prop :=
+  ∀ bits, IsPattern f bits → floatClass f.ebits f.mbits bits = .finite →
+    ∃ t, writeFloat f bits = some t ∧ IsJsonFixed t ∧
+      ∀ rest, TokenEnds rest → readFloat f (t ++ rest) = some (.ok bits t.length)
+
+/-- the part that is proved: whenever the model of `AppendFloat(…,'f',-1,bitSize)` produces digits for a finite
+pattern (guard: the 20-digit search succeeds), the text is an RFC 8259 number without exponent, `ParseFloat`'s model
+maps it to the same bits (±0, subnormals, every exponent), and `Json2ReadFloat32/64` reads it back bit-exactly as a
+number token (before the end of input or any token-ending character) and in quoted form. -/
+theorem float_finite_roundtrip_partial (f : FloatFmt) (bits : Nat) (hp : IsPattern f bits)
+    (hfin : floatClass f.ebits f.mbits bits = .finite) (hguard : (formatFloat f bits).isSome = true) :
+    ∃ t, writeFloat f bits = some t ∧ IsJsonFixed t ∧ parseFloatText f t = some bits ∧
+      ∀ rest, TokenEnds rest →
+        readFloat f (t ++ rest) = some (.ok bits t.length)
+        ∧ readFloat f (0x22 :: (t ++ 0x22 :: rest)) = some (.ok bits (t.length + 2)) := by
+  obtain ⟨t, ht⟩ := Option.isSome_iff_exists.mp hguard
+  refine ⟨t, ?_, formatFloat_fixed f bits t ht, formatFloat_sound f bits hp t ht, ?_⟩
+  · unfold writeFloat; rw [hfin]; exact ht
+  · intro rest hr
+    exact readFloat_formatFloat f bits hp t ht rest hr
+
+/-- the writer model never fails on a non-finite pattern, and a finite pattern is never written as a string -/
+theorem float_writer_cases (f : FloatFmt) (bits : Nat) :
+    (floatClass f.ebits f.mbits bits ≠ .finite → ∃ t, writeFloat f bits = some t ∧ IsJsonString t) ∧
+    (floatClass f.ebits f.mbits bits = .finite → writeFloat f bits = formatFloat f bits) := by
+  constructor
+  · intro h
+    obtain ⟨t, h1, _, h3⟩ := float_special_roundtrip _ h []
+    exact ⟨t, by unfold writeFloat; rw [h1], h3⟩
+  · intro h; unfold writeFloat; rw [h]; rfl
+
 /-! ## The hypotheses are satisfiable, the branches are all reachable -/
+
+example : formatFloat fmt64 0x3FF8000000000000 = some [0x31, 0x2E, 0x35] := by decide +kernel          -- 1.5
+example : formatFloat fmt32 0x3DCCCCCD = some [0x30, 0x2E, 0x31] := by decide +kernel                  -- 0.1f
+example : formatFloat fmt64 0x8000000000000000 = some [0x2D, 0x30] := by decide +kernel                -- -0
+example : (formatFloat fmt64 0x0000000000000001).isSome = true := by decide +kernel                    -- 5e-324
+example : (formatFloat fmt64 0x7FEFFFFFFFFFFFFF).isSome = true := by decide +kernel                    -- max
+example : parseFloatText fmt64 [0x31, 0x65, 0x33, 0x30, 0x39] = none := by decide +kernel              -- 1e309 overflows
 
 example : utf8Valid [0x68, 0x0A, 0x22, 0xE2, 0x80, 0xA8, 0xF0, 0x9F, 0x98, 0x80] = true := by decide
 example : utf8Valid [0xED, 0xA0, 0x80] = false := by decide        -- a UTF-8 encoded surrogate
